@@ -75,7 +75,7 @@ class Check:
         self.P = importlib.import_module("props." + pid)
         self.work = os.path.join(VERIF, ".work", "%s.%d" % (pid, os.getpid()))
         os.makedirs(self.work, exist_ok=True)
-        self.out_dir = os.path.join(VERIF, "out", pid)
+        self.out_dir = os.path.join(VERIF, "out", pid if REPO == "/repo" else pid + "-scratch-" + hashlib.sha1(REPO.encode()).hexdigest()[:6])
         os.makedirs(self.out_dir, exist_ok=True)
         self.known = load_known(pid)
         self.violations = []      # (replay_path, suffix)
@@ -93,11 +93,18 @@ class Check:
 
     # ---------------------------------------------------------------- builds
     def build_harness(self, race=False):
-        args = ["go", "build", "-tags", "verif"] + (["-race"] if race else []) + ["-o", self.bin_h, "./cmd/" + self.P.HARNESS]
-        gosum = os.path.join(REPO, "go.sum")
-        mine = os.path.join(HARNESS, "go.sum")
-        if not os.path.exists(mine):
-            shutil.copy(gosum, mine)
+        # private go.mod so that the replace directive points at the tree under test (VERIF_REPO, default /repo)
+        gomod = open(os.path.join(HARNESS, "go.mod")).read().replace("=> /repo", "=> " + REPO)
+        with open(os.path.join(self.work, "go.mod"), "w") as f:
+            f.write(gomod)
+        sums = set(open(os.path.join(REPO, "go.sum")).read().splitlines())
+        extra = os.path.join(HARNESS, "go.sum.extra")
+        if os.path.exists(extra):
+            sums |= set(open(extra).read().splitlines())
+        with open(os.path.join(self.work, "go.sum"), "w") as f:
+            f.write("\n".join(sorted(x for x in sums if x.strip())) + "\n")
+        args = (["go", "build", "-modfile", os.path.join(self.work, "go.mod"), "-tags", "verif"] + (["-race"] if race else [])
+                + ["-o", self.bin_h, "./cmd/" + self.P.HARNESS])
         r = run(args, cwd=HARNESS, env=GOENV)
         if r.returncode != 0:
             p = self.write_replay("build", "# obligation: corr:%s:harness-build\n# the correspondence harness no longer compiles against %s\n" % (self.id, REPO)
@@ -459,8 +466,9 @@ class Check:
             "known_findings_hit": self.known_hits,
         }
         ev["coverage"].update({k: v for k, v in self.extra.items() if k != "exhaustive"})
-        os.makedirs(os.path.join(VERIF, "evidence"), exist_ok=True)
-        with open(os.path.join(VERIF, "evidence", self.id + ".json"), "w") as f:
+        evdir = os.path.join(VERIF, "evidence") if REPO == "/repo" else os.path.join(VERIF, "out", "scratch-evidence")
+        os.makedirs(evdir, exist_ok=True)
+        with open(os.path.join(evdir, self.id + ".json"), "w") as f:
             json.dump(ev, f, indent=1, sort_keys=True)
             f.write("\n")
         for l in self.known_hits:
